@@ -86,6 +86,66 @@ def run_requests(ck, exe, reqs, jobs):
     return lp
 
 
+def judge_selftest(ck, recs):
+    """The judge must reject corrupted copies of a successful record, clause by clause (binding self-test:
+    a clause that cannot fire would make the contract vacuous)."""
+    import copy
+    base = None
+    for want_all in (True, False):
+        for r in recs:
+            q = r["req"]
+            o = r.get("out")
+            if o and o["status"] == 0 and not o["exception"] and q["nvar"] == 2 and len(o["model"]["covs"]) >= 2 and not q["cons"] \
+                    and q["csill"] == 0 and not q["optrow"] and q["ndim"] == 2 and o["model"]["covs"][-1]["hasrange"] == 1 \
+                    and o["model"]["covs"][-1]["anis"] > 100000 and q["entry"] == "fit" \
+                    and (len(o["model"]["covs"]) == len(q["types"]) or not want_all):
+                base = r
+                break
+        if base:
+            break
+    if base is None:
+        raise Broken("no record suitable for the self-test of the judge")
+    cases = []
+
+    def case(clause, f):
+        r = copy.deepcopy(base)
+        f(r)
+        cases.append((clause, r))
+    k = len(base["out"]["model"]["covs"]) - 1
+    case(None, lambda r: None)
+    case("sill-not-psd", lambda r: r["out"]["model"]["covs"][k]["eig"].update(minrel=-1000))
+    case("range-not-positive", lambda r: r["out"]["model"]["covs"][k]["rpos"].__setitem__(0, False))
+    case("reload", lambda r: r["out"]["reload"].update(diff=1000000))
+    case("kriging", lambda r: r["out"]["krig"]["uni"][0].update(err=1))
+    case("cokriging", lambda r: (r["out"]["krig"]["co"].update(finite=False), r["out"]["model"]["total"].update(minrel=5000000)))
+    case("dims", lambda r: r["out"]["model"].update(nvar=3))
+    case("structures-not-requested", lambda r: r["out"]["model"]["covs"][k].update(type="CAUCHY"))
+    case("noreduce", lambda r: (r["req"]["opt"].update(noreduce=True), r["req"]["types"].append("CUBIC")))
+    case("auth-aniso", lambda r: r["req"]["opt"].update(aniso=False))
+    case("lock-iso2d", lambda r: r["req"]["opt"].update(iso2d=True))
+    case("constraint-RANGE", lambda r: r["req"]["cons"].append({"elem": "RANGE", "icov": len(r["req"]["types"]) - 1, "iv1": 0, "iv2": 0, "type": "UPPER",
+                                                              "val": r["out"]["model"]["covs"][k]["ranges"][0] - 1000}))
+    case("constraint-SILL", lambda r: r["req"]["cons"].append({"elem": "SILL", "icov": len(r["req"]["types"]) - 1, "iv1": 1, "iv2": 1, "type": "EQUAL",
+                                                             "val": r["out"]["model"]["covs"][k]["sill"][3] + 50}))
+    case("constant-sill", lambda r: r["req"].update(csill=r["out"]["model"]["sumsill"][0] + 100))
+    case("crash", lambda r: (r.pop("out"), r.update(crash="signal 11")))
+    if len(base["req"]["types"]) != len(base["out"]["model"]["covs"]):
+        cases = [c for c in cases if c[0] not in ("constraint-RANGE", "constraint-SILL")]
+    lp = os.path.join(ck.work, "selftest.ndjson")
+    vlib.write_ndjson(lp, [c[1] for c in cases])
+    jr = vlib.run_tlc("TraceFitContract", "TraceFitContract.cfg", workers=1, env={"FITLOG": lp}, timeout=600)
+    if jr.violation or "NOT-ALL-EXAMINED" in jr.stdout:
+        raise Broken("judge self-test: TLC did not examine the corrupted records:\n" + (jr.violation or jr.stdout[-2000:]))
+    got = {e["idx"]: set(e["fails"]) for e in jr.emitted if "idx" in e}
+    for i, (clause, _) in enumerate(cases, 1):
+        have = got.get(i, set())
+        if clause is None and have:
+            raise Broken("judge self-test: the unmodified record is rejected: %s" % sorted(have))
+        if clause is not None and clause not in have:
+            raise Broken("judge self-test: corrupted record not rejected by clause %s (got %s)" % (clause, sorted(have)))
+    ck.cov["judge_selftest_corruptions_rejected"] = len(cases) - 1
+
+
 def describe(req, out, fails):
     """Record used for the known-finding match: the clause + the narrow circumstances."""
     kinds = sorted(set("%s-%s" % (c["elem"], c["type"]) for c in req["cons"]))
@@ -149,6 +209,7 @@ def run(tier):
             rejected.append(e)
     if gaps is None:
         raise Broken("TraceFitContract did not report the coverage gaps")
+    judge_selftest(ck, recs)
     nok = nfail = nexc = ncrash = 0
     per_entry = collections.defaultdict(lambda: [0, 0])
     slow = 0
